@@ -44,6 +44,8 @@ use std::time::{Duration, Instant};
 
 #[path = "../c12/share.rs"]
 mod share;
+#[path = "../c12/frames.rs"]
+mod frames;
 
 // ------------------------------------------------------------ tracked token
 
@@ -467,7 +469,9 @@ fn check_dump(drv: &mut Driver, rep: &mut Report, src: &str, dump: Result<(Strin
 /// every `lir::Instruction` kind of the generated kind list. Run FIRST in every
 /// tier, independent of the seed; every kind must go through the verified
 /// checker at least once (a kind no representative reaches is a mismatch: the
-/// model would claim a kind it never sees).
+/// model would claim a kind it never sees). `nested-records` is the shape of the
+/// scripts of share class `frame-slots` (by-reference locals, temporaries,
+/// arguments and return slots, a local live across a recursive call).
 const KIND_REPRESENTATIVES: &[(&str, &str)] = &[
     ("scalar-arith", "fn main(x: u32) -> u32 {\n  let a = (x + 3) * 2 - 1;\n  let b = a / 3 + a % 5;\n  if a < b && !(a == 7) { b } else { a }\n}\n"),
     ("signed-float", "fn main(x: i32) -> bool {\n  let y = -x;\n  let f = 2.5 / 0.5;\n  let g = -f;\n  if g < f { y < 3 } else { y >= 3 }\n}\n"),
@@ -475,6 +479,7 @@ const KIND_REPRESENTATIVES: &[(&str, &str)] = &[
     ("records-enums", "record P { a: u32, b: u32 }\nconst RC: P = P { a: 1, b: 2 };\nfn helper(p: P, k: u32) -> P { P { a: p.a + k, b: p.b } }\nfn main(x: u32) -> u32 {\n  let q = helper(RC, x);\n  let o: u32? = if q.a < 10 { Some(q.a) } else { None };\n  match o { Some(v) => v + 1, None => q.b }\n}\n"),
     ("tokens", "fn main(x: u32) -> u32 {\n  let t = mk(x);\n  let u = t;\n  tk_id(u) + tick()\n}\n"),
     ("ipaddr", "fn main(x: u32) -> bool {\n  let a = 1.2.3.4;\n  let b = 1.2.3.4;\n  if x < 3 { a == b } else { a == 10.0.0.1 }\n}\n"),
+    ("nested-records", "record Row { a: u64, b: u64 }\nrecord T { r0: Row, r1: Row }\nfn row(x: u64) -> Row { Row { a: x, b: x + 1 } }\nfn make(x: u64) -> T { T { r0: row(x), r1: row(x + 2) } }\nfn sum(t: T) -> u64 { t.r0.a + t.r0.b + t.r1.a + t.r1.b }\nfn rec(x: u64, d: u64) -> u64 {\n  let t = make(x + d);\n  let below = if d > 0 { rec(x, d - 1) } else { 0 };\n  sum(t) + below\n}\nfn main(x: u64) -> u64 {\n  let t = make(x);\n  t.r0.a = t.r0.a + 1;\n  sum(t) + rec(x, 2)\n}\n"),
     ("lists", "fn main(x: u32) -> u32 {\n  let l = [x, 2, 3];\n  l.push(x + 1);\n  let ls = [\"a\", \"b\"];\n  ls.push(\"c\");\n  let n = 0;\n  for e in l { n = n + e; }\n  n\n}\n"),
 ];
 
@@ -903,6 +908,72 @@ fn main() {
 }
 "#;
 
+/// A host value type that is `Send` but not `Sync` (it counts its clones in a
+/// `Cell`), registered as `Val<Probe>`, held by a SCRIPT-level constant: the
+/// constant lives in the module's memory (`ModuleData`, `unsafe impl Sync`) and
+/// every read of it in generated code calls `Probe::clone(&self)` on that one
+/// object from whichever thread is calling. `Value::Transformed: Send + Sync` /
+/// `impl<T: … + Send + Sync> Value for Val<T>` must make rustc reject the
+/// registration; if it builds it is run: 4 threads x 100 000 reads through shared
+/// and cloned handles, the non-atomic counter shows the lost updates.
+const PROBE_CELL_VALUE: &str = r#"
+use roto::{FileTree, Runtime, Val, library};
+use std::cell::Cell;
+#[derive(PartialEq)]
+struct Probe { reads: Cell<u64> }
+impl Clone for Probe {
+    fn clone(&self) -> Self {
+        let n = self.reads.get() + 1;
+        std::hint::spin_loop();
+        self.reads.set(n);
+        Probe { reads: Cell::new(n) }
+    }
+}
+fn main() {
+    let lib = library! {
+        /// counts how often it was cloned (Send, not Sync)
+        #[clone] type Probe = Val<Probe>;
+        /// a fresh probe
+        fn make_probe() -> Val<Probe> { Val(Probe { reads: Cell::new(0) }) }
+        /// clones of the original made when this clone was made
+        fn probe_reads(p: Val<Probe>) -> u64 { p.0.reads.get() }
+    };
+    let rt = Runtime::from_lib(lib).unwrap();
+    let src = "const P: Probe = make_probe();\nfn main() -> u64 { probe_reads(P) }";
+    let mut pkg = FileTree::test_file("p.roto", src, 0).compile(&rt).unwrap();
+    let f = pkg.get_function::<fn() -> u64>("main").unwrap();
+    let a = f.call();
+    let b = f.call();
+    println!("SINGLE {}", b - a);
+    let before = f.call();
+    let start = std::sync::Barrier::new(4);
+    std::thread::scope(|s| {
+        for t in 0..4 {
+            let own = if t % 2 == 1 { Some(f.clone()) } else { None };
+            let (f, start) = (&f, &start);
+            s.spawn(move || {
+                let h = own.as_ref().unwrap_or(f);
+                start.wait();
+                for _ in 0..100000 { std::hint::black_box(h.call()); }
+            });
+        }
+    });
+    let after = f.call();
+    println!("FINAL {}", after - before - 1);
+}
+"#;
+
+/// control of `cell_value_const`: the same program with an atomic counter
+/// (`Send + Sync`) must build and count every read
+fn probe_atomic_value() -> String {
+    PROBE_CELL_VALUE
+        .replace("use std::cell::Cell;", "use std::sync::atomic::{AtomicU64, Ordering};")
+        .replace("#[derive(PartialEq)]\nstruct Probe { reads: Cell<u64> }", "struct Probe { reads: AtomicU64 }\nimpl PartialEq for Probe { fn eq(&self, o: &Self) -> bool { self.reads.load(Ordering::SeqCst) == o.reads.load(Ordering::SeqCst) } }")
+        .replace("let n = self.reads.get() + 1;\n        std::hint::spin_loop();\n        self.reads.set(n);\n        Probe { reads: Cell::new(n) }", "let n = self.reads.fetch_add(1, Ordering::SeqCst) + 1;\n        Probe { reads: AtomicU64::new(n) }")
+        .replace("Val(Probe { reads: Cell::new(0) })", "Val(Probe { reads: AtomicU64::new(0) })")
+        .replace("p.0.reads.get()", "p.0.reads.load(Ordering::SeqCst)")
+}
+
 struct ProbeResult {
     built: bool,
     diagnostics: String,
@@ -966,7 +1037,7 @@ fn final_count(out: &str) -> Option<u64> {
     out.lines().find_map(|l| l.strip_prefix("FINAL ")).and_then(|s| s.trim().parse().ok())
 }
 
-fn probes(repo: &Path, fn_bounds: Option<&str>, rep: &mut Report) {
+fn probes(repo: &Path, fn_bounds: Option<&str>, val_bounds: Option<&str>, rep: &mut Report) {
     // the model's verdict: is a Send-but-not-Sync closure admitted by every impl's bounds?
     let model_admits: Option<bool> = fn_bounds.map(|b| {
         let mut drv = Driver::spawn().expect("lean driver");
@@ -999,6 +1070,49 @@ fn probes(repo: &Path, fn_bounds: Option<&str>, rep: &mut Report) {
     }
     rep.evaluations += 1;
     rep.class(format!("probe cell_closure built={}", cell.built));
+
+    // a Send + !Sync host value in a script-level constant
+    let val_admits: Option<bool> = val_bounds.map(|b| {
+        let mut drv = Driver::spawn().expect("lean driver");
+        b.split(';').filter(|l| !l.trim().is_empty()).all(|l| drv.ask(&format!("c12 admits 1 0 {}", l.trim())) == "yes")
+    });
+    let cv = run_probe(repo, "cell_value_const", PROBE_CELL_VALUE);
+    let cv_sync_error = cv.diagnostics.contains("E0277") && cv.diagnostics.contains("cannot be shared between threads safely");
+    rep.hist("rustc-probe", format!("cell_value_const:{}", if cv.built { "accepted" } else if cv_sync_error { "rejected-E0277-Sync" } else { "rejected-other" }));
+    if cv.built {
+        let n = final_count(&cv.output);
+        rep.violation(
+            "safe Rust shares non-Sync state through the API: Val<T> with T: Send + !Sync (a Cell inside) is accepted as a roto value; a script-level constant of that type lives in the module shared by all handles and is cloned through &T by every calling thread (4 threads x 100000 reads through shared and cloned handles)",
+            "host-value-not-sync",
+            json!({"kind": "probe", "program": "cell_value_const", "rustc": "accepted", "reads": 400000, "counted_reads": n,
+                   "lost_updates": n.map(|n| 400000i64 - n as i64), "output": cv.output.chars().take(200).collect::<String>()}),
+        );
+    } else if !cv_sync_error {
+        rep.mismatch("rustc probe cell_value_const failed for another reason than the Sync bound", json!({"diagnostics": cv.diagnostics[cv.diagnostics.find("error").unwrap_or(0)..].chars().take(1500).collect::<String>()}));
+    }
+    if let Some(m) = val_admits {
+        if m != cv.built && (cv.built || cv_sync_error) {
+            rep.mismatch(
+                "Bounds.admits on the generated bound lists of Value::Transformed / Val<T> disagrees with rustc about a Send + !Sync host value",
+                json!({"model_admits": m, "rustc_accepts": cv.built, "val_bounds": val_bounds}),
+            );
+        }
+    }
+    rep.evaluations += 1;
+    rep.class(format!("probe cell_value_const built={}", cv.built));
+    let av = run_probe(repo, "atomic_value_const", &probe_atomic_value());
+    rep.hist("rustc-probe", format!("atomic_value_const:{}", if av.built { "accepted" } else { "rejected" }));
+    if !av.built {
+        rep.mismatch("control probe atomic_value_const (a Send + Sync host value in a script constant) does not build", json!({"diagnostics": av.diagnostics[av.diagnostics.find("error").unwrap_or(0)..].chars().take(1500).collect::<String>()}));
+    } else if final_count(&av.output) != Some(400000) {
+        rep.violation(
+            "4 x 100000 reads of a script-level constant holding a Send + Sync host value through shared and cloned handles were not all counted by its atomic clone counter",
+            "atomic-value-const-count-differs",
+            json!({"kind": "probe", "program": "atomic_value_const", "counted_reads": final_count(&av.output), "output": av.output.chars().take(200).collect::<String>()}),
+        );
+    }
+    rep.evaluations += 1;
+    rep.class(format!("probe atomic_value_const built={}", av.built));
 
     let rc = run_probe(repo, "rc_constant", PROBE_RC);
     let rc_error = rc.diagnostics.contains("E0277");
@@ -1058,8 +1172,10 @@ fn probes(repo: &Path, fn_bounds: Option<&str>, rep: &mut Report) {
     rep.class(format!("probe into_func_send built={}", inf.built));
 
     rep.sample(json!({"probe": {"into_func_send": {"built": inf.built, "output": inf.output.trim()}, "cell_closure": {"built": cell.built, "rejected_for_sync": sync_error, "output": cell.output.trim()},
+        "cell_value_const": {"built": cv.built, "rejected_for_sync": cv_sync_error, "output": cv.output.trim()},
+        "atomic_value_const": {"built": av.built, "output": av.output.trim()},
         "rc_constant": {"built": rc.built}, "atomic_closure": {"built": at.built, "output": at.output.trim()}},
-        "model_admits_send_not_sync_closure": model_admits}));
+        "model_admits_send_not_sync_closure": model_admits, "model_admits_send_not_sync_value": val_admits}));
 }
 
 // ------------------------------------------------------------ entry points
@@ -1225,7 +1341,7 @@ fn main() {
             let focus = share::parse_focus(arg_after(&a, "--focus"));
             kind_representatives(&mut rep);
             share::run_pass(seed, &tiername, &focus, 0, 0, &mut rep, &mut vec![], None);
-            probes(&repo, arg_after(&a, "--fn-bounds"), &mut rep);
+            probes(&repo, arg_after(&a, "--fn-bounds"), arg_after(&a, "--val-bounds"), &mut rep);
             let t = tier(&tiername);
             let seed_s = seed.to_string();
             worker::run_batches(
@@ -1274,7 +1390,7 @@ fn main() {
             let mut rep = Report::default();
             if case["kind"] == "probe" {
                 let repo = std::env::var("ROTO_REPO").map(PathBuf::from).unwrap_or_else(|_| PathBuf::from("/repo"));
-                probes(&repo, None, &mut rep);
+                probes(&repo, None, None, &mut rep);
             } else if case["kind"] == "share" {
                 share::replay(&case, &mut rep);
             } else {
